@@ -16,7 +16,7 @@ import numpy as np
 from vf import lops
 from vf.monitors import STATE
 from vf.oracles.algebra import Spec
-from vf.common import pick, Plan, crandn, held, violated, inconclusive, rng_for, nrm, inner
+from vf.common import structured, pick, Plan, crandn, held, violated, inconclusive, rng_for, nrm, inner
 
 SPEC = {
     "rule": ("cases = one operator description each: every leaf class of sigpy.linop / "
@@ -109,8 +109,11 @@ def run_case(case):
         spec = Spec(lops.build, lops.scalar_value) if "parts" in desc or "A" in desc else None
         for k in range(4):
             if k < 3:
-                x = crandn(rng, ish, dt)
-                y = crandn(rng, osh, dt if dt.kind == "c" else np.float64)
+                # third pair: data with structure Gaussian draws never have (constant,
+                # alternating, one-hot, exact ties, powers of two, signed zeros, denormals)
+                with structured(sum(case["rs"]) % 9 if k == 2 else 0):
+                    x = crandn(rng, ish, dt)
+                    y = crandn(rng, osh, dt if dt.kind == "c" else np.float64)
                 if k == 1:          # memory-layout variant: Fortran-ordered probes
                     x, y = np.asfortranarray(x), np.asfortranarray(y)
             else:                         # sparse pair: isolates index-map errors
